@@ -221,4 +221,47 @@ Join(b, r) ==
        IN Url(scheme, b.netloc, p1,
               IF r.path # <<>> \/ r.query # <<>> THEN r.query ELSE b.query,
               r.fragment)
+
+\* ------------------------------------------------- __eq__ / __hash__ / ordering
+NormPath(u) == IF u.path = <<>> /\ u.netloc # <<>> THEN <<SLASH>> ELSE u.path
+HashKey(u) == <<u.scheme, u.netloc, NormPath(u), u.query, u.fragment>>
+Eq(u, v)   == HashKey(u) = HashKey(v)
+\* Python's str < str (code point lexicographic) and tuple < tuple
+RECURSIVE StrLess(_, _)
+StrLess(a, b) == IF b = <<>> THEN FALSE ELSE IF a = <<>> THEN TRUE
+                 ELSE IF a[1] # b[1] THEN a[1] < b[1] ELSE StrLess(Tail(a), Tail(b))
+RECURSIVE TupLess(_, _)
+TupLess(a, b) == IF b = <<>> THEN FALSE ELSE IF a = <<>> THEN TRUE
+                 ELSE IF a[1] # b[1] THEN StrLess(a[1], b[1]) ELSE TupLess(Tail(a), Tail(b))
+ValTuple(u) == <<u.scheme, u.netloc, u.path, u.query, u.fragment>>
+\* Dev_OrderingOnRawTuple: the ordering operators compare the RAW five-tuple while == compares the
+\* normalised one (empty path under an authority == "/"): for 'http://a' vs 'http://a/' both == and < hold
+Dev_OrderingOnRawTuple == On
+OrdKey(u) == IF Dev_OrderingOnRawTuple THEN ValTuple(u) ELSE HashKey(u)
+Lt(u, v) == TupLess(OrdKey(u), OrdKey(v))
+Le(u, v) == OrdKey(u) = OrdKey(v) \/ Lt(u, v)
+Gt(u, v) == Lt(v, u)
+Ge(u, v) == Le(v, u)
+
+\* ------------------------------------------------------ MultiDict.update (multidict 6.x _update_items)
+\* items, new: sequences of <<key, value>>.  For each new pair: replace the next occurrence of its key
+\* (searching from the position after the last one used for that key), else append; afterwards drop every
+\* occurrence of an updated key that lies at or beyond its last used position.
+RECURSIVE UpdStep(_, _, _, _)
+UpdStep(items, new, i, used) ==        \* used: function key -> next start position (1-based), default 1
+  IF i > Len(new) THEN <<items, used>>
+  ELSE LET k == new[i][1]
+           start == IF k \in DOMAIN used THEN used[k] ELSE 1
+           hits == {j \in start..Len(items) : items[j][1] = k} IN
+       IF hits # {} THEN
+          LET j == CHOOSE x \in hits : \A y \in hits : x <= y IN
+          UpdStep([items EXCEPT ![j] = new[i]], new, i + 1, [kk \in DOMAIN used \cup {k} |-> IF kk = k THEN j + 1 ELSE used[kk]])
+       ELSE UpdStep(Append(items, new[i]), new, i + 1,
+                    [kk \in DOMAIN used \cup {k} |-> IF kk = k THEN Len(items) + 2 ELSE used[kk]])
+UpdatePairs(items, new) ==
+  LET r == UpdStep(items, new, 1, << >>)
+      it == r[1] used == r[2]
+      keep == {j \in 1..Len(it) : it[j][1] \notin DOMAIN used \/ j < used[it[j][1]]} IN
+  SelectSeq([j \in 1..Len(it) |-> <<j, it[j]>>], LAMBDA p : p[1] \in keep)
+UpdatePairsSeq(items, new) == LET u == UpdatePairs(items, new) IN [j \in 1..Len(u) |-> u[j][2]]
 =============================================================================
